@@ -960,6 +960,67 @@ func (r *SchedRun) monitors() {
 			}
 		}
 	}
+	// ---- C12: an import racing first writes on an initializing ledger
+	if scn.Prop == "C12" {
+		imp := -1
+		for i, o := range scn.Writers {
+			if o.Kind == "import" {
+				imp = i
+			}
+		}
+		accepted := imp >= 0 && r.ResSx[imp] == L("imp", "ok")
+		nImported, maxImported := 0, int64(0)
+		for _, l := range r.Logs {
+			if strings.HasPrefix(l[1], "i") {
+				nImported++
+				if id := atoi(l[0]); id > maxImported {
+					maxImported = id
+				}
+			}
+		}
+		writerCommitted := false
+		for _, c := range r.Commits {
+			if c != imp {
+				writerCommitted = true
+			}
+		}
+		if accepted {
+			if nImported != int(scn.Writers[imp].Amt) {
+				add("C12", fmt.Sprintf("[c12-conc-accepted-incomplete] the import answered ok but %d of its %d logs are stored", nImported, scn.Writers[imp].Amt))
+			}
+			seenImp, lastImp := false, -1
+			for k, c := range r.Commits {
+				if c == imp {
+					seenImp, lastImp = true, k
+				}
+			}
+			for k, c := range r.Commits {
+				if c != imp && seenImp && k < lastImp {
+					add("C12", fmt.Sprintf("[c12-conc-write-inside-import] the write of request %d committed before the accepted import had finished (commit order %v): the import was accepted on a ledger that is not pristine, or was not exclusive", c, r.Commits))
+					break
+				}
+			}
+			for _, l := range r.Logs {
+				if !strings.HasPrefix(l[1], "i") && atoi(l[0]) < maxImported {
+					add("C12", fmt.Sprintf("[c12-conc-id-order] log %s of a write lies below imported log %d", l[0], maxImported))
+				}
+			}
+		} else if nImported > 0 {
+			add("C12", fmt.Sprintf("[c12-conc-rejected-effect] the import was answered %s but %d imported logs are stored", r.ResSx[imp], nImported))
+		}
+		if want := map[bool]string{true: "in-use", false: "initializing"}[writerCommitted]; r.State != want {
+			add("C12", fmt.Sprintf("[c12-conc-state] the ledger row says %s, expected %s (a write committed: %v)", r.State, want, writerCommitted))
+		}
+		for _, e := range r.Events {
+			if e.label == "silent" || e.label == "other" {
+				add("C12", fmt.Sprintf("[c12-conc-wait-inside-critical-section] request %d met a %s statement that %s: statements of a write / of an imported log are supposed to run under the ledger lock without ever waiting", e.w, e.label, e.status))
+				break
+			}
+		}
+		if len(r.Unknown) > 0 {
+			add("C12", "[c12-conc-unclassified-statement] "+r.Unknown[0])
+		}
+	}
 	// ---- C13: requests sharing an idempotency key
 	if scn.Prop == "C13" {
 		ik := scn.Writers[0].IK
